@@ -43,7 +43,8 @@ PROFILES = {
     "refs": dict(
         property="C09",
         oracles=["O9"],
-        weights=_w(ref=12, hide_ref=4, touch_hidden_computed=2, hidden_computed_scenario=2, overwrite_chain_scenario=3, selfjoin=3, agg_selfjoin_scenario=1, rename=7, select=5, drop=3, mutate=8, join=4, alias=3, collect=2, summarize=2, recompute=1, clone=1, union=0, mutate_w=1),
+        weights=_w(ref=12, hide_ref=4, touch_hidden_computed=2, hidden_computed_scenario=2, overwrite_chain_scenario=3, selfjoin=3, agg_selfjoin_scenario=1, rename=7, select=5, drop=3, mutate=8, join=4, alias=3, collect=2, summarize=2, recompute=1, clone=1, union=2, mutate_w=1),
+        p_union_same_origin=0.7,
         mutate_kinds=EW,
         window_kinds=WIN,
         mutate_names=[4, 4, 3, 0],
